@@ -72,6 +72,10 @@ Inductive case :=
         (handover : N)             (* consensus.NewState on what was stored: 0 ok, 1 panic, 2 not run *)
         (seen_class : N)           (* the seen commit of the last stored block: 0 all slots genuine,
                                       1 a non-absent slot carries a foreign address but every signature is valid, 2 other *)
+        (snap : Z * list Z * bool * Z)
+        (* the real pool when the sync ended (after the switch, or at the deadline with every liar
+           gone or silent for longer than the peer timeout): pool.height, the heights the peers
+           still in the pool report, IsCaughtUp(), pool.maxPeerHeight *)
 (* the hand-over of one whole sync: consensus.NewState on the state and store the node had at
    start, block sync against scripted peers, then the blockchain reactor's own call of the real
    consensus Reactor.SwitchToConsensus *)
@@ -95,7 +99,18 @@ Inductive case :=
            RoundState.Height; LastCommit class (as in CStep, against the seen commit of the top
            block of the store); consensus state running and WaitSync() = false afterwards;
            consensus.NewState on the result (0 ok, 1 panic, 2 not run) *)
-| CPool (start : Z) (ops : list pop) (snap : psnap).
+| CPool (start : Z) (ops : list pop) (snap : psnap)
+(* blockchain/v2: the real scheduler and processor (real store, executor, commit verification)
+   wired synchronously as the reactor's demux routine wires them; a liar whose first answer is a
+   block of its own making and an honest peer that has the whole chain (monitors only) *)
+| CV2 (tip : Z)                    (* height of both peers *)
+      (obs : bool * Z * bool * bool * bool * bool * N).
+      (* scheduler or processor panicked / returned an error; height of the node's store at the
+         end; every stored block is the canonical one; the honest peer was removed although no
+         block it supplied was part of a pair that failed verification; the honest peer is still
+         ready at the end; the processor finished (pcFinished); CommitToVoteSet on the stored
+         seen commit of the last block with the final state's LastValidators: 0 +2/3, 1 panic or
+         no +2/3, 2 nothing stored *)
 
 (* ------------------------------------------------------------------ helpers *)
 
@@ -231,7 +246,9 @@ Fixpoint is_prefix (a b : list Z) : bool :=
   end.
 
 Definition check_scen (canon : list Z) (start : Z) (stored : list Z) (tip : Z)
-           (peers : list (Z * N * bool * bool)) (nbad : Z) (switched : bool) (ho seen_class : N) : list verdict :=
+           (peers : list (Z * N * bool * bool)) (nbad : Z) (switched : bool) (ho seen_class : N)
+           (snap : Z * list Z * bool * Z) : list verdict :=
+  let '(ph, pheights, caught, maxh) := snap in
   let honest_left := existsb (fun x => let '(_, k, st, _) := x in (k =? 0)%N && negb st) peers in
   let honest_stopped := Z.of_nat (List.length (filter (fun x => let '(_, k, st, _) := x in (k =? 0)%N && st) peers)) in
   [ (* clause 2: everything stored is the canonical chain *)
@@ -241,6 +258,14 @@ Definition check_scen (canon : list Z) (start : Z) (stored : list Z) (tip : Z)
     (* clause 7: when every peer is honest nobody is stopped *)
     viol (existsb (fun x => let '(_, k, _, _) := x in negb (k =? 0)%N) peers
           || forallb (fun x => let '(_, _, st, _) := x in negb st) peers) 7;
+    (* clause 43: the hand-over is offered as soon as nobody the node is connected to claims more
+       than it can still get: at least one peer in the pool, every one of them reports a height
+       <= pool.height + 1 (block H is applied only with block H+1 in hand), pool.height > 0 —
+       then IsCaughtUp() holds.  What peers claimed earlier, or peers that are gone, must not
+       keep the node in block sync.  Decided on the pool's own fields and answer. *)
+    viol (negb (match pheights with [] => false | _ => true end
+                && forallb (fun h => h <=? ph + 1) pheights && (ph >? 0))
+          || caught) 43;
     (* clause 8: while an honest peer is still connected the node stores every block below the
        tip and switches to consensus *)
     viol (negb honest_left || (switched && (Z.of_nat (List.length stored) >=? tip - 1))) 8;
@@ -383,13 +408,30 @@ Definition check_pool (start : Z) (ops : list pop) (snap : psnap) : list verdict
     mism (zlist_eqb (rev (p_errors pl)) errs) 27;
     mism (Bool.eqb (is_caught_up pl true) caught) 28 ].
 
+(* ------------------------------------------------------------------ CV2 (monitors only) *)
+
+Definition check_v2 (tip : Z) (obs : bool * Z * bool * bool * bool * bool * N) : list verdict :=
+  let '(crashed, stored, canon, dropped, honest_left, finished, ho) := obs in
+  [ (* clause 44: the sync machinery does not crash on what peers send *)
+    viol (negb crashed) 44;
+    (* clause 2: what is stored is the canonical chain *)
+    viol canon 2;
+    (* clause 10: an honest peer is removed only as a supplier of a rejected pair *)
+    viol (negb dropped) 10;
+    (* clause 8: with the honest peer connected the node stores every block below the tip and
+       finishes *)
+    viol (negb honest_left || (finished && (stored >=? tip - 1))) 8;
+    (* clause 5: what was stored lets consensus rebuild its last commit *)
+    viol (negb (ho =? 1)%N) 5 ].
+
 Definition check (c : case) : verdict :=
   match c with
   | CStep vals chain st_h first canon cm base sigs p1 p2 comp obs sw bids =>
     first_of (check_step vals chain st_h first canon cm base sigs p1 p2 comp obs sw bids)
   | CHand vals0 vals1 chain ih h0 h1 seen0 seen1 verified obs =>
     first_of (check_hand vals0 vals1 chain ih h0 h1 seen0 seen1 verified obs)
-  | CScen canon start stored tip peers nbad switched ho sc =>
-    first_of (check_scen canon start stored tip peers nbad switched ho sc)
+  | CScen canon start stored tip peers nbad switched ho sc snap =>
+    first_of (check_scen canon start stored tip peers nbad switched ho sc snap)
   | CPool start ops snap => first_of (check_pool start ops snap)
+  | CV2 tip obs => first_of (check_v2 tip obs)
   end.
